@@ -8,7 +8,12 @@
 //   several blocks per bucket), ChainedBinNormalisation (nested, null members, partial application), the BinNormalisation
 //   base-class defaults and BinNormalisationWithCalibration through two table-driven subclasses defined here;
 //   set_up, then apply/undo on RelatedViewgrams for several symmetry groupings and on whole ProjData objects;
-//   set_up refusals (TOF / mashed / compressed data) and the check of the set-up state on use, for every class.
+//   set_up refusals (TOF / mashed / compressed data) and the check of the set-up state on use, for every class;
+//   HISTORIES ON ONE OBJECT (section I): an object is set up again after its factors were changed in place and / or for another
+//   geometry (components, FromProjData, FromAttenuationImage, chains, calibrated table); after every set_up all oracles and
+//   the correspondence run again and the answers are compared bitwise with a fresh object configured identically;
+//   attenuation images with NON-SQUARE in-plane voxels (sections A/B and J): uniform boxes / cylinders with analytically
+//   known chord lengths, image-object / filename constructors and the parsed route, with and without a projector given.
 // Usage: c13_binnorm <seed> <quick|thorough> <opsfile> <implfile>
 // ops/impl: the line protocol answered by lean/Driver/C13.lean;  <implfile>.oracle: the property's own statement
 // evaluated on the implementation (all bins).
@@ -34,9 +39,14 @@
 #include "stir/Radionuclide.h"
 #include "stir/Succeeded.h"
 #include "stir/Bin.h"
+#include "stir/LORCoordinates.h"
+#include "stir/IO/write_to_file.h"
 #include <cmath>
+#include <cstring>
 #include <map>
 #include <set>
+#include <array>
+#include <stdexcept>
 #include <functional>
 
 using namespace stir;
@@ -188,6 +198,21 @@ fill_gen(PD& d, const std::function<float()>& gen)
         Bin b(r.seg, r.view, r.ax, t, r.tof, gen());
         d.set_bin_value(b);
       }
+}
+
+// all values of any PD, in the order of fill_gen
+static std::vector<float>
+flatten_pd(PD& d)
+{
+  std::vector<float> v;
+  const ProjDataInfo& p = *d.get_proj_data_info_sptr();
+  for (const Row& r : rows_of(p))
+    for (int t = p.get_min_tangential_pos_num(); t <= p.get_max_tangential_pos_num(); ++t)
+      {
+        Bin b(r.seg, r.view, r.ax, t, r.tof);
+        v.push_back(d.get_bin_value(b));
+      }
+  return v;
 }
 
 static std::string
@@ -391,6 +416,7 @@ struct Runner
     g.tmax = pdi->get_max_tangential_pos_num();
     g.nt = g.tmax - g.tmin + 1;
     cases.clear();
+    atten_sym.clear();
     g_cfg = descr;
     op("cfg " + descr, "ok");
     d1.resize(g.nbins());
@@ -499,13 +525,33 @@ struct Runner
     return k;
   }
 
-  // factors_pdi: geometry of the stored factors
-  int add_from_proj_data(const shared_ptr<ProjDataInfo>& factors_pdi, const std::string& label)
+  // a calibrated table that already has a history: the object `n` is about to be set up again (by run_case); the model keeps
+  // its state (CalibObj) under the name `hist_id` and is told here that set_up is called, with the table as it is now
+  int add_calib_hist(const shared_ptr<CalibTableNorm>& n, const std::string& hist_id)
+  {
+    Case c;
+    c.kind = "calib:history";
+    c.norm = n;
+    c.routes = generic_routes();
+    const int k = add(c);
+    send_table("t" + cases[k].id, *n->table);
+    op("hist " + hist_id + " setup calib t" + cases[k].id, "ok");
+    cases[k].id = hist_id;
+    return k;
+  }
+
+  // factors_pdi: geometry of the stored factors; `f_reuse` / `norm_reuse`: an existing factor data set (values as they are
+  // now) held by an existing object
+  int add_from_proj_data(const shared_ptr<ProjDataInfo>& factors_pdi, const std::string& label, shared_ptr<PD> f_reuse = shared_ptr<PD>(),
+                         shared_ptr<BinNormalisation> norm_reuse = shared_ptr<BinNormalisation>())
   {
     Case c;
     c.kind = "fpd:" + label;
-    shared_ptr<PD> f = random_positive_pd(factors_pdi, 0.25F, 4.F);
-    c.norm.reset(new BinNormalisationFromProjData(f));
+    shared_ptr<PD> f = f_reuse ? f_reuse : random_positive_pd(factors_pdi, 0.25F, 4.F);
+    if (norm_reuse)
+      c.norm = norm_reuse;
+    else
+      c.norm.reset(new BinNormalisationFromProjData(f));
     c.routes = generic_routes();
     const bool norm_tof = factors_pdi->is_tof_data();
     c.stored_factor.reserve(g.nbins());
@@ -525,11 +571,61 @@ struct Runner
   // then uses ForwardProjectorByBinUsingRayTracing, whose symmetries are DataSymmetriesForBins_PET_CartesianGrid with
   // everything enabled.  In both cases the rows sent to the model and used by the oracle come from a separate
   // ProjMatrixByBinUsingRayTracing object (one ray per bin), and the line integrals are summed here.
-  int add_atten(int f, float zoom, int nxy, bool default_projector = false)
+  // `sx`, `sy`: the x and y voxel sizes of the image are multiplied by these (non-square in-plane voxels).
+  struct AttenObj
   {
-    Case c;
-    c.kind = default_projector ? std::string("attenDefaultProjector") : "atten" + std::to_string(f);
-    shared_ptr<VoxelsOnCartesianGrid<float>> mu = vh::make_image(*g.pdi, zoom, nxy, -1);
+    shared_ptr<VoxelsOnCartesianGrid<float>> mu; // cm^-1, as given to the constructor
+    shared_ptr<ForwardProjectorByBin> fwd;       // null: none given
+    shared_ptr<BinNormalisation> norm;
+    int f;
+    bool swap_s, shift_z, default_projector;
+    std::string label;
+  };
+
+  static shared_ptr<ProjMatrixByBinUsingRayTracing> make_matrix(int flags, bool swap_s, bool shift_z)
+  {
+    shared_ptr<ProjMatrixByBinUsingRayTracing> pm(new ProjMatrixByBinUsingRayTracing);
+    pm->set_do_symmetry_90degrees_min_phi(flags & 1);
+    pm->set_do_symmetry_180degrees_min_phi(flags & 2);
+    pm->set_do_symmetry_swap_segment(flags & 4);
+    pm->set_do_symmetry_swap_s(swap_s);
+    pm->set_do_symmetry_shift_z(shift_z);
+    return pm;
+  }
+
+  // a new normalisation object (and a new projector with the same settings) for the same image
+  static void construct_atten(AttenObj& a)
+  {
+    shared_ptr<const DiscretisedDensity<3, float>> mu_c(a.mu);
+    if (a.default_projector)
+      {
+        a.fwd.reset();
+        a.norm.reset(new BinNormalisationFromAttenuationImage(mu_c));
+      }
+    else
+      {
+        a.fwd.reset(new ForwardProjectorByBinUsingProjMatrixByBin(make_matrix(a.f, a.swap_s, a.shift_z)));
+        a.norm.reset(new BinNormalisationFromAttenuationImage(mu_c, a.fwd));
+      }
+  }
+
+  AttenObj make_atten(int f, float zoom, int nxy, bool default_projector = false, float sx = 1.F, float sy = 1.F)
+  {
+    AttenObj a;
+    a.f = f;
+    a.default_projector = default_projector;
+    a.mu = vh::make_image(*g.pdi, zoom, nxy, -1);
+    if (sx != 1.F || sy != 1.F)
+      {
+        CartesianCoordinate3D<float> vs = a.mu->get_voxel_size();
+        vs.x() *= sx;
+        vs.y() *= sy;
+        a.mu->set_voxel_size(vs);
+        std::ostringstream l;
+        l << ":voxel(x,y,z)=(" << vs.x() << "," << vs.y() << "," << vs.z() << ")";
+        a.label = l.str();
+      }
+    shared_ptr<VoxelsOnCartesianGrid<float>> mu = a.mu;
     for (auto it = mu->begin_all(); it != mu->end_all(); ++it)
       *it = rng.range(0, 5) == 0 ? 0.F : rnd(0.02F, 0.45F); // cm^-1
     if (default_projector)
@@ -539,38 +635,36 @@ struct Runner
         // depend on the symmetry settings: sum of the row of bin (0, view 60 degrees, 0, 0) is 6 computed directly, 8.08
         // through the 90-degree symmetry, 7x7 image).  That is the business of properties C03/C04; here the attenuation image is
         // simply empty near the edge, as real attenuation images are.
-        const double keep = (nxy - 1) / 2. - 1.;
+        const CartesianCoordinate3D<float> vs = mu->get_voxel_size();
+        const double keep_x = ((nxy - 1) / 2. - 1.) * vs.x(), keep_y = ((nxy - 1) / 2. - 1.) * vs.y();
+        const double keep = std::min(keep_x, keep_y);
         for (int z = mu->get_min_index(); z <= mu->get_max_index(); ++z)
           for (int y = (*mu)[z].get_min_index(); y <= (*mu)[z].get_max_index(); ++y)
             for (int x = (*mu)[z][y].get_min_index(); x <= (*mu)[z][y].get_max_index(); ++x)
-              if (std::sqrt(static_cast<double>(x) * x + static_cast<double>(y) * y) > keep)
+              if (std::sqrt(static_cast<double>(x) * x * vs.x() * vs.x() + static_cast<double>(y) * y * vs.y() * vs.y()) > keep)
                 (*mu)[z][y][x] = 0.F;
       }
-    auto make_matrix = [&](int flags, bool swap_s, bool shift_z) {
-      shared_ptr<ProjMatrixByBinUsingRayTracing> pm(new ProjMatrixByBinUsingRayTracing);
-      pm->set_do_symmetry_90degrees_min_phi(flags & 1);
-      pm->set_do_symmetry_180degrees_min_phi(flags & 2);
-      pm->set_do_symmetry_swap_segment(flags & 4);
-      pm->set_do_symmetry_swap_s(swap_s);
-      pm->set_do_symmetry_shift_z(shift_z);
-      return pm;
-    };
-    const bool swap_s = rng.coin(), shift_z = rng.coin();
-    shared_ptr<ProjMatrixByBinUsingRayTracing> pm = make_matrix(f, swap_s, shift_z);
-    shared_ptr<ForwardProjectorByBin> fwd;
-    if (!default_projector)
-      fwd.reset(new ForwardProjectorByBinUsingProjMatrixByBin(pm));
-    shared_ptr<const DiscretisedDensity<3, float>> mu_c(mu);
-    if (default_projector)
-      c.norm.reset(new BinNormalisationFromAttenuationImage(mu_c));
-    else
-      c.norm.reset(new BinNormalisationFromAttenuationImage(mu_c, fwd));
+    a.swap_s = rng.coin();
+    a.shift_z = rng.coin();
+    construct_atten(a);
+    return a;
+  }
+
+  // the case for an attenuation object (new, or one that was set up before) and the data geometry at hand
+  int add_atten_case(const AttenObj& a)
+  {
+    Case c;
+    c.kind = (a.default_projector ? std::string("attenDefaultProjector") : "atten" + std::to_string(a.f)) + a.label;
+    c.norm = a.norm;
+    shared_ptr<VoxelsOnCartesianGrid<float>> mu = a.mu;
+    shared_ptr<ForwardProjectorByBin> fwd = a.fwd;
     // (the class must be set up before the projector's symmetries exist: routes are filled in by run_case)
     // explicit rows: a second matrix object with the same settings (that rows do not depend on the symmetry settings is
     // property C03, not this one), cache off; the line integrals are summed here, not by a projector
-    shared_ptr<ProjMatrixByBinUsingRayTracing> pm0 = make_matrix(f, swap_s, shift_z);
+    shared_ptr<ProjMatrixByBinUsingRayTracing> pm0 = make_matrix(a.f, a.swap_s, a.shift_z);
     pm0->enable_cache(false);
     pm0->set_up(g.pdi, mu);
+    // the matrix elements are lengths in units of the X voxel size
     const float vx = mu->get_voxel_size().x();
     const int k = add(c);
     Case& cc = cases[k];
@@ -598,7 +692,7 @@ struct Runner
           cc.acf.push_back(static_cast<float>(std::exp(integral)));
         }
     op("norm " + cc.id + " atten " + vh::hex(vx) + " r" + cc.id, "ok");
-    if (default_projector)
+    if (a.default_projector)
       {
         shared_ptr<ProjDataInfo> pdi = g.pdi;
         atten_sym[k] = [pdi, mu]() {
@@ -609,17 +703,32 @@ struct Runner
       atten_sym[k] = [fwd]() { return shared_ptr<DataSymmetriesForViewSegmentNumbers>(fwd->get_symmetries_used()->clone()); };
     return k;
   }
+
+  int add_atten(int f, float zoom, int nxy, bool default_projector = false, float sx = 1.F, float sy = 1.F)
+  {
+    return add_atten_case(make_atten(f, zoom, nxy, default_projector, sx, sy));
+  }
   // symmetries of the projector inside an attenuation object (available after set_up)
   std::map<int, std::function<shared_ptr<DataSymmetriesForViewSegmentNumbers>()>> atten_sym;
 
-  // components: which = bit0 efficiencies, bit1 geo, bit2 block; mode 0 random, 1 all exactly 1, 2 within 5e-5 of 1, 3 efficiencies with zeros
-  int add_components(int which, int mode)
+  // components: which = bit0 efficiencies, bit1 geo, bit2 block; mode 0 random, 1 all exactly 1, 2 within 5e-5 of 1, 3 efficiencies with zeros,
+  // 4 ONE element of each array changed (the others stay as they are; only with `reuse`).
+  // `reuse`: an object that was allocated (and possibly set up) before: only the arrays in `which & change` are written, in place;
+  // `hist_id`: the name under which the model keeps the state of that object (CompObj): the model is told that set_up is called
+  // now (run_case does it), with the arrays as they are now, looked up per bin for the geometry at hand.
+  int add_components(int which, int mode, shared_ptr<BinNormalisationPETFromComponents> reuse = shared_ptr<BinNormalisationPETFromComponents>(),
+                     int change = 7, const std::string& hist_id = "")
   {
     Case c;
-    c.kind = "comp" + std::to_string(which) + "m" + std::to_string(mode);
+    c.kind = "comp" + std::to_string(which) + "m" + std::to_string(mode) + (reuse ? ":history" : "");
     c.is_components = true;
-    shared_ptr<BinNormalisationPETFromComponents> n(new BinNormalisationPETFromComponents);
-    n->allocate(g.pdi, which & 1, which & 2, which & 4);
+    shared_ptr<BinNormalisationPETFromComponents> n = reuse;
+    if (!n)
+      {
+        n.reset(new BinNormalisationPETFromComponents);
+        n->allocate(g.pdi, which & 1, which & 2, which & 4);
+      }
+    const int fill = reuse ? (which & change) : which;
     auto val = [&]() {
       if (mode == 1)
         return 1.F;
@@ -634,47 +743,85 @@ struct Runner
       if (first || v > mx)
         mx = v;
     };
-    if (which & 1)
+    if (fill & 1)
       {
         DetectorEfficiencies& e = n->crystal_efficiencies();
         bool first = true;
-        for (int r = e.get_min_index(); r <= e.get_max_index(); ++r)
-          for (int d = e[r].get_min_index(); d <= e[r].get_max_index(); ++d)
-            {
-              float v = val();
-              if (mode == 3 && rng.range(0, 7) == 0)
-                v = 0.F;
-              e[r][d] = v;
-              track(v, emin, emax, first);
-              first = false;
-            }
+        if (mode == 4)
+          e[rng.range(e.get_min_index(), e.get_max_index())][rng.range(e[e.get_min_index()].get_min_index(), e[e.get_min_index()].get_max_index())]
+              = rnd(1.2F, 1.8F);
+        else
+          for (int r = e.get_min_index(); r <= e.get_max_index(); ++r)
+            for (int d = e[r].get_min_index(); d <= e[r].get_max_index(); ++d)
+              {
+                float v = val();
+                if (mode == 3 && rng.range(0, 7) == 0)
+                  v = 0.F;
+                e[r][d] = v;
+                track(v, emin, emax, first);
+                first = false;
+              }
       }
-    if (which & 2)
+    if (fill & 2)
       {
         GeoData3D& geo = n->geometric_factors();
         // the array also has cells that no crystal pair ever reads; set every cell through the Array interface
         bool first = true;
-        for (auto it = geo.begin_all(); it != geo.end_all(); ++it)
+        if (mode == 4)
           {
-            *it = val();
-            track(*it, gmin, gmax, first);
-            first = false;
+            // all cells of one (ring, crystal) of the first detector: some of them are read for every geometry
+            Array<4, float>& arr = geo;
+            const int ra = rng.range(arr.get_min_index(), arr.get_max_index());
+            const int a = rng.range(arr[ra].get_min_index(), arr[ra].get_max_index());
+            const float v = rnd(1.2F, 1.8F);
+            for (auto it = arr[ra][a].begin_all(); it != arr[ra][a].end_all(); ++it)
+              *it = v;
           }
+        else
+          for (auto it = geo.begin_all(); it != geo.end_all(); ++it)
+            {
+              *it = val();
+              track(*it, gmin, gmax, first);
+              first = false;
+            }
       }
-    if (which & 4)
+    if (fill & 4)
       {
         BlockData3D& bd = n->block_factors();
         bool first = true;
+        const bool one = mode == 4;
+        const int pick_ra = rng.range(bd.get_min_ra(), bd.get_max_ra()), pick_a = rng.range(bd.get_min_a(), bd.get_max_a());
+        const float one_v = one ? rnd(1.2F, 1.8F) : 0.F;
         for (int ra = bd.get_min_ra(); ra <= bd.get_max_ra(); ++ra)
           for (int a = bd.get_min_a(); a <= bd.get_max_a(); ++a)
             for (int rb = std::max(ra, bd.get_min_rb(ra)); rb <= bd.get_max_rb(ra); ++rb)
               for (int b = bd.get_min_b(a); b <= bd.get_max_b(a); ++b)
                 {
+                  if (one)
+                    {
+                      if (ra == pick_ra && a == pick_a)
+                        bd(ra, a, rb, b) = one_v;
+                      continue;
+                    }
                   const float v = val();
                   bd(ra, a, rb, b) = v;
                   track(v, bmin, bmax, first);
                   first = false;
                 }
+      }
+    if (reuse)
+      {
+        // the ranges `is_trivial` looks at, of the arrays as they are now (written in this step or earlier)
+        if (which & 1)
+          {
+            emin = n->crystal_efficiencies().find_min();
+            emax = n->crystal_efficiencies().find_max();
+          }
+        if (which & 4)
+          {
+            bmin = n->block_factors().find_min();
+            bmax = n->block_factors().find_max();
+          }
       }
     c.norm = n;
     c.routes = generic_routes();
@@ -739,7 +886,14 @@ struct Runner
       << ((which & 1) ? "eb" + id : std::string("-")) << " " << ((which & 2) ? "geo" + id : std::string("-")) << " "
       << ((which & 4) ? "blk" + id : std::string("-")) << " " << vh::hex(emin) << " " << vh::hex(emax) << " " << vh::hex(gmin) << " "
       << vh::hex(gmax) << " " << vh::hex(bmin) << " " << vh::hex(bmax);
-    op(s.str(), "ok");
+    if (hist_id.empty())
+      op(s.str(), "ok");
+    else
+      {
+        // `norm <id> comp …` -> `hist <hist_id> setup comp …`; from here on the case answers under the name of the object
+        op("hist " + hist_id + " setup" + s.str().substr(std::string("norm " + id).size()), "ok");
+        cases[k].id = hist_id;
+      }
     return k;
   }
 
@@ -1336,7 +1490,494 @@ struct Runner
     if (c.is_chain && !first_U1.empty())
       run_partial(k, first_U1, first_A1);
   }
+
+  // ---- histories on one object: after run_case(k) of an object that was set up before (for other factors and / or another
+  // geometry), a FRESH object configured identically and set up once must give bitwise the same answers: is_trivial,
+  // get_bin_efficiency of every bin (or an error for both), undo and apply of d1 for the first and the last route
+  void compare_fresh(int k, const shared_ptr<BinNormalisation>& fresh, const std::string& what)
+  {
+    Case& c = cases[k];
+    if (!c.norm || c.routes.empty())
+      return;
+    const std::string where = c.kind + " [" + what + "]";
+    ++g_checks;
+    bool ok = false;
+    try
+      {
+        ok = fresh->set_up(g.exam, g.pdi) == Succeeded::yes;
+      }
+    catch (...)
+      {}
+    if (!ok)
+      {
+        oracle_fail("history: set_up of the fresh reference object failed: " + where);
+        return;
+      }
+    auto same_bits = [](float a, float b) { return std::memcmp(&a, &b, sizeof(float)) == 0; };
+    auto triv_of = [](const BinNormalisation& n) {
+      try
+        {
+          return n.is_trivial() ? 1 : 0;
+        }
+      catch (...)
+        {
+          return -1;
+        }
+    };
+    ++g_checks;
+    if (triv_of(*c.norm) != triv_of(*fresh))
+      oracle_fail("history: is_trivial() of the object set up again is " + std::to_string(triv_of(*c.norm)) + ", of a fresh object configured identically "
+                  + std::to_string(triv_of(*fresh)) + ": " + where);
+    {
+      int bad = -1;
+      float v1 = 0, v2 = 0;
+      std::size_t i = 0;
+      for (const Row& r : g.rows)
+        for (int t = g.tmin; t <= g.tmax; ++t, ++i)
+          {
+            Bin b(r.seg, r.view, r.ax, t, r.tof);
+            float e1 = 0, e2 = 0;
+            bool r1 = true, r2 = true;
+            try
+              {
+                e1 = c.norm->get_bin_efficiency(b);
+              }
+            catch (...)
+              {
+                r1 = false;
+              }
+            try
+              {
+                e2 = fresh->get_bin_efficiency(b);
+              }
+            catch (...)
+              {
+                r2 = false;
+              }
+            if (r1 != r2 || (r1 && !same_bits(e1, e2)))
+              {
+                bad = static_cast<int>(i);
+                v1 = e1;
+                v2 = e2;
+              }
+          }
+      ++g_checks;
+      if (bad >= 0)
+        oracle_fail("history: get_bin_efficiency of the object set up again (" + fmt(v1) + ") differs from that of a fresh object configured identically ("
+                    + fmt(v2) + ") at " + bin_name(g, bad) + ": " + where);
+    }
+    for (int which = 0; which < 2; ++which)
+      {
+        const Route& r = which == 0 ? c.routes.front() : c.routes.back();
+        if (which == 1 && c.routes.size() == 1)
+          break;
+        for (int do_apply = 0; do_apply < 2; ++do_apply)
+          {
+            PD w1(g.exam, g.pdi), w2(g.exam, g.pdi);
+            fill_from(g, w1, d1);
+            fill_from(g, w2, d1);
+            ++g_checks;
+            if (!(run_route(*c.norm, r, g, w1, do_apply != 0) && run_route(*fresh, r, g, w2, do_apply != 0)))
+              {
+                oracle_fail(std::string("history: ") + (do_apply ? "apply" : "undo") + " threw (route " + r.name + "): " + where);
+                continue;
+              }
+            const std::vector<float> a = flatten(g, w1), b = flatten(g, w2);
+            int bad = -1;
+            for (std::size_t i = 0; i < a.size(); ++i)
+              if (!same_bits(a[i], b[i]))
+                bad = static_cast<int>(i);
+            if (bad >= 0)
+              oracle_fail(std::string("history: ") + (do_apply ? "apply" : "undo") + " of the object set up again gives " + fmt(a[bad])
+                          + ", a fresh object configured identically " + fmt(b[bad]) + " for d=" + vh::hex(d1[bad]) + " at " + bin_name(g, bad) + " route "
+                          + r.name + ": " + where);
+          }
+      }
+  }
 };
+
+// ================================================================== I: histories on ONE object
+// Every class for which the API allows a change between two set_up calls.  After EVERY set_up: run_case (all oracles, all
+// correspondence lines: the model is given the factors as they are NOW) and compare_fresh.
+
+static int g_hist_counter = 0;
+
+static void
+copy_components(BinNormalisationPETFromComponents& to, BinNormalisationPETFromComponents& from, int which)
+{
+  if (which & 1)
+    to.crystal_efficiencies() = from.crystal_efficiencies();
+  if (which & 2)
+    {
+      Array<4, float>& a = to.geometric_factors();
+      Array<4, float>& b = from.geometric_factors();
+      std::copy(b.begin_all(), b.end_all(), a.begin_all());
+    }
+  if (which & 4)
+    to.block_factors() = from.block_factors();
+}
+
+static void
+hist_components(vh::Rng& rng, bool thorough)
+{
+  Runner R(rng, thorough);
+  const int tpb = rng.coin() ? 4 : 2;
+  const int N = tpb * 2 * rng.range(2, 3);
+  const int apb = rng.range(1, 2);
+  const int Rr = apb * rng.range(1, 2);
+  const int maxtang = N / 2 - 1;
+  const int ntA = std::max(3, std::min(maxtang, 2 * rng.range(1, 3) + 1));
+  const int ntB = ntA + 2 <= maxtang ? ntA + 2 : ntA - 1; // another (possibly even) number of tangential positions
+  shared_ptr<Scanner> sc = block_scanner(N, Rr, tpb, apb, -1);
+  shared_ptr<ProjDataInfo> A = vh::make_pdi(sc, 1, Rr - 1, N / 2, ntA, false, 0);
+  shared_ptr<ProjDataInfo> B = vh::make_pdi(sc, 1, Rr > 1 ? rng.range(0, Rr - 1) : 0, N / 2, ntB, false, 0);
+  std::ostringstream d;
+  d << "nonTOF N=" << N << " R=" << Rr << " span=1 views=" << N / 2 << " blocks=" << tpb << "x" << apb << " history=components";
+  const std::string hid = "H" + std::to_string(g_hist_counter++);
+  shared_ptr<BinNormalisationPETFromComponents> obj(new BinNormalisationPETFromComponents);
+  int which = 7;
+  R.set_geometry(sc, A, d.str() + " step=new");
+  op("hist " + hid + " new", "ok");
+  {
+    // set_up without allocation is refused by error(); the model: CompObj.setUp of an object that was not allocated
+    bool threw = false;
+    try
+      {
+        obj->set_up(R.g.exam, A);
+      }
+    catch (...)
+      {
+        threw = true;
+      }
+    op("hist " + hid + " setup comp - - - - - 0x1p+0 0x1p+0 0x1p+0 0x1p+0 0x1p+0 0x1p+0", threw ? "err" : "ok");
+    ++g_checks;
+    if (!threw)
+      oracle_fail("BinNormalisationPETFromComponents::set_up accepted an object that was never allocated");
+  }
+  obj->allocate(A, true, true, true);
+  op("hist " + hid + " allocate", "ok");
+  auto step = [&](const shared_ptr<ProjDataInfo>& pdi, const char* gname, int mode, int change, const std::string& what) {
+    std::ostringstream descr;
+    descr << d.str() << " step=" << what << " geometry=" << gname << " tang=" << pdi->get_num_tangential_poss()
+          << " segments=" << pdi->get_num_segments();
+    R.set_geometry(sc, pdi, descr.str());
+    const int k = R.add_components(which, mode, obj, change, hid);
+    R.run_case(k);
+    shared_ptr<BinNormalisationPETFromComponents> fresh(new BinNormalisationPETFromComponents);
+    fresh->allocate(pdi, which & 1, which & 2, which & 4);
+    copy_components(*fresh, *obj, which);
+    R.compare_fresh(k, fresh, what);
+  };
+  step(A, "A", 0, 7, "1:random-factors");
+  step(A, "A", 0, 1, "2:efficiencies-changed-in-place");
+  step(A, "A", 0, 2, "3:geometric-factors-changed-in-place");
+  step(A, "A", 0, 4, "4:block-factors-changed-in-place");
+  step(A, "A", 1, 7, "5:all-factors-set-to-1");
+  step(A, "A", 0, 7, "6:random-factors-again");
+  step(B, "B", 0, 0, "7:other-geometry-same-factors");
+  step(B, "B", 1, 7, "8:all-factors-set-to-1");
+  step(B, "B", 4, rng.coin() ? 1 : (rng.coin() ? 2 : 4), "9:one-element-changed");
+  step(A, "A", 2, 7, "10:first-geometry-again-factors-near-1");
+  if (thorough || rng.coin())
+    step(A, "A", 4, 7, "11:one-element-of-each-array-changed");
+  // allocate again with another set of components (invalidates everything)
+  which = rng.coin() ? 1 : (rng.coin() ? 3 : 5);
+  obj->allocate(A, which & 1, which & 2, which & 4);
+  op("hist " + hid + " allocate", "ok");
+  step(A, "A", 0, 7, "12:allocated-again-with-other-components");
+  step(B, "B", 1, 7, "13:all-factors-set-to-1");
+  step(B, "B", 0, 7, "14:random-factors");
+}
+
+static void
+hist_from_proj_data(vh::Rng& rng, bool thorough)
+{
+  Runner R(rng, thorough);
+  const int N = 4 * rng.range(2, 3);
+  const int Rr = rng.range(2, 3);
+  const int nt = std::max(2, std::min(N / 2 - 1, rng.range(2, 5)));
+  shared_ptr<Scanner> sc = vh::make_scanner(N, Rr, 5);
+  shared_ptr<ProjDataInfo> big = vh::make_pdi(sc, 1, Rr - 1, N / 2, nt, false, 0);
+  shared_ptr<ProjDataInfo> small = vh::make_pdi(sc, 1, rng.range(0, Rr - 2), N / 2, nt, false, 0);
+  shared_ptr<ProjDataInfo> tof = vh::make_pdi(sc, 1, Rr - 1, N / 2, nt, false, 1);
+  std::ostringstream d;
+  d << "N=" << N << " R=" << Rr << " span=1 views=" << N / 2 << " tang=" << nt << " history=FromProjData(nonTOF-factors,"
+    << big->get_num_segments() << "-segments)";
+  R.set_geometry(sc, big, d.str() + " step=new");
+  shared_ptr<PD> factors = R.random_positive_pd(big, 0.25F, 4.F);
+  shared_ptr<BinNormalisation> obj(new BinNormalisationFromProjData(factors));
+  auto step = [&](const shared_ptr<ProjDataInfo>& pdi, bool change, const std::string& what) {
+    std::ostringstream descr;
+    descr << d.str() << " step=" << what << " data-segments=" << pdi->get_num_segments() << " data-tof=" << pdi->get_num_tof_poss();
+    R.set_geometry(sc, pdi, descr.str());
+    if (change)
+      fill_gen(*factors, [&]() { return R.rnd(0.25F, 4.F); }); // the object holds this very ProjData
+    const int k = R.add_from_proj_data(big, "history", factors, obj);
+    R.run_case(k);
+    shared_ptr<PD> copy(new PD(R.g.exam, big));
+    {
+      const std::vector<float> v = flatten_pd(*factors);
+      std::size_t i = 0;
+      fill_gen(*copy, [&]() { return v[i++]; });
+    }
+    R.compare_fresh(k, shared_ptr<BinNormalisation>(new BinNormalisationFromProjData(copy)), what);
+  };
+  step(big, false, "1:nonTOF-data");
+  step(tof, false, "2:TOF-data");
+  step(small, false, "3:nonTOF-data-with-fewer-segments");
+  step(big, true, "4:factors-changed-in-place");
+  step(tof, true, "5:factors-changed-in-place-TOF-data");
+  step(big, false, "6:nonTOF-data-again");
+}
+
+static void
+hist_atten(vh::Rng& rng, bool thorough)
+{
+  Runner R(rng, thorough);
+  const int tpb = 2;
+  const int N = tpb * 2 * rng.range(2, 4);
+  const int Rr = rng.range(2, 3);
+  const int maxtang = N / 2 - 1;
+  const int ntA = std::max(3, std::min(maxtang, rng.range(3, 6)));
+  const int ntB = ntA + 1 <= maxtang ? ntA + 1 : ntA - 1;
+  shared_ptr<Scanner> sc = block_scanner(N, Rr, tpb, 1, -1);
+  shared_ptr<ProjDataInfo> A = vh::make_pdi(sc, 1, Rr - 1, N / 2, ntA, false, 0);
+  shared_ptr<ProjDataInfo> B = vh::make_pdi(sc, 1, Rr - 1, N / 2, ntB, false, 0);
+  shared_ptr<ProjDataInfo> C = vh::make_pdi(sc, 1, rng.range(0, Rr - 2), N / 2, ntA, false, 0);
+  for (int default_projector = 0; default_projector < 2; ++default_projector)
+    {
+      std::ostringstream d;
+      d << "nonTOF N=" << N << " R=" << Rr << " span=1 views=" << N / 2 << " history=FromAttenuationImage("
+        << (default_projector ? "default projector" : "matrix projector") << ")";
+      R.set_geometry(sc, A, d.str() + " step=new");
+      const bool nonsquare = rng.coin();
+      Runner::AttenObj obj = R.make_atten(rng.range(0, 7), rng.coin() ? 0.8F : 1.25F, rng.range(6, 8), default_projector != 0,
+                                          nonsquare ? 1.5F : 1.F, nonsquare ? 1.F : (rng.coin() ? 1.1F : 1.F));
+      auto step = [&](const shared_ptr<ProjDataInfo>& pdi, const std::string& what) {
+        std::ostringstream descr;
+        descr << d.str() << " step=" << what << " tang=" << pdi->get_num_tangential_poss() << " segments=" << pdi->get_num_segments();
+        R.set_geometry(sc, pdi, descr.str());
+        const int k = R.add_atten_case(obj);
+        R.run_case(k);
+        Runner::AttenObj fresh = obj;
+        Runner::construct_atten(fresh);
+        R.compare_fresh(k, fresh.norm, what);
+      };
+      step(A, "1:first-geometry");
+      step(B, "2:other-number-of-tangential-positions");
+      step(C, "3:fewer-segments");
+      step(A, "4:first-geometry-again");
+    }
+}
+
+static void
+hist_chain(vh::Rng& rng, bool thorough)
+{
+  Runner R(rng, thorough);
+  const int tpb = 2;
+  const int N = tpb * 2 * rng.range(2, 3);
+  const int Rr = rng.range(2, 3);
+  const int maxtang = N / 2 - 1;
+  const int ntA = std::max(3, std::min(maxtang, 2 * rng.range(1, 2) + 1));
+  const int ntB = ntA + 2 <= maxtang ? ntA + 2 : ntA - 1;
+  shared_ptr<Scanner> sc = block_scanner(N, Rr, tpb, 1, -1);
+  shared_ptr<ProjDataInfo> A = vh::make_pdi(sc, 1, Rr - 1, N / 2, ntA, false, 0);
+  shared_ptr<ProjDataInfo> B = vh::make_pdi(sc, 1, Rr - 1, N / 2, ntB, false, 0);
+  std::ostringstream d;
+  d << "nonTOF N=" << N << " R=" << Rr << " span=1 views=" << N / 2 << " history=Chained(Chained(components,attenuation),calibrated-table)";
+  R.set_geometry(sc, A, d.str() + " step=new");
+  const int which = rng.coin() ? 7 : 3;
+  shared_ptr<BinNormalisationPETFromComponents> comp(new BinNormalisationPETFromComponents);
+  comp->allocate(A, which & 1, which & 2, which & 4);
+  Runner::AttenObj att = R.make_atten(rng.range(0, 7), 0.8F, rng.range(5, 7), false, rng.coin() ? 1.5F : 1.F, 1.F);
+  Radionuclide rn("verif", 511.F, R.rnd(0.1F, 1.F), 6584.04F, ImagingModality(ImagingModality::PT));
+  shared_ptr<CalibTableNorm> cal(new CalibTableNorm(R.random_positive_pd(A, 0.2F, 5.F)));
+  cal->set_calibration_factor(R.rnd(0.3F, 40.F));
+  cal->set_radionuclide(rn);
+  shared_ptr<BinNormalisation> inner(new ChainedBinNormalisation(comp, att.norm));
+  shared_ptr<BinNormalisation> chain(new ChainedBinNormalisation(inner, cal));
+  // the chain objects stay; their members are changed in place between two set_up calls of the OUTER chain only
+  auto step = [&](const shared_ptr<ProjDataInfo>& pdi, int comp_mode, bool change_cal, const std::string& what) {
+    std::ostringstream descr;
+    descr << d.str() << " step=" << what << " tang=" << pdi->get_num_tangential_poss();
+    R.set_geometry(sc, pdi, descr.str());
+    const int kc = R.add_components(which, comp_mode, comp, comp_mode < 0 ? 0 : 7);
+    const int ka = R.add_atten_case(att);
+    if (change_cal)
+      {
+        cal->set_calibration_factor(R.rnd(0.3F, 40.F));
+        if (rng.coin())
+          {
+            rn = Radionuclide("verif", 511.F, R.rnd(0.1F, 1.F), 6584.04F, ImagingModality(ImagingModality::PT));
+            cal->set_radionuclide(rn);
+          }
+      }
+    if (cal->table->get_proj_data_info_sptr()->get_num_tangential_poss() != pdi->get_num_tangential_poss())
+      cal->table = R.random_positive_pd(pdi, 0.2F, 5.F); // the table of the verif subclass follows the data geometry
+    else if (change_cal)
+      fill_gen(*cal->table, [&]() { return R.rnd(0.2F, 5.F); });
+    int kl;
+    {
+      Case c;
+      c.kind = "calib";
+      c.norm = cal;
+      c.routes = R.generic_routes();
+      kl = R.add(c);
+      send_table("t" + R.cases[kl].id, *cal->table);
+      op("norm " + R.cases[kl].id + " calib t" + R.cases[kl].id + " " + vh::hex(cal->get_calibration_factor()) + " "
+             + vh::hex(cal->get_branching_ratio()),
+         "ok");
+    }
+    int ki, ko;
+    {
+      Case c;
+      c.kind = "chain(components,attenuation):history";
+      c.norm = inner;
+      c.members = { kc, ka };
+      c.is_chain = true;
+      c.is_components = true;
+      c.has_small_eff = true;
+      c.positive_inputs = R.cases[kc].positive_inputs;
+      c.routes = R.generic_routes();
+      ki = R.add(c);
+      op("norm " + R.cases[ki].id + " chain " + R.cases[kc].id + " " + R.cases[ka].id, "ok");
+    }
+    {
+      Case c;
+      c.kind = "chain(chain(components,attenuation),calib):history";
+      c.norm = chain;
+      c.members = { ki, kl };
+      c.is_chain = true;
+      c.is_components = true;
+      c.has_small_eff = true;
+      c.positive_inputs = R.cases[kc].positive_inputs;
+      c.routes = R.generic_routes();
+      ko = R.add(c);
+      op("norm " + R.cases[ko].id + " chain " + R.cases[ki].id + " " + R.cases[kl].id, "ok");
+    }
+    // ONLY the outer chain is set up (by run_case): its set_up must reach every member
+    R.run_case(ko);
+    // fresh: new members configured identically, new chains
+    shared_ptr<BinNormalisationPETFromComponents> fcomp(new BinNormalisationPETFromComponents);
+    fcomp->allocate(pdi, which & 1, which & 2, which & 4);
+    copy_components(*fcomp, *comp, which);
+    Runner::AttenObj fatt = att;
+    Runner::construct_atten(fatt);
+    shared_ptr<PD> ftab(new PD(R.g.exam, pdi));
+    {
+      const std::vector<float> v = flatten_pd(*cal->table);
+      std::size_t i = 0;
+      fill_gen(*ftab, [&]() { return v[i++]; });
+    }
+    shared_ptr<CalibTableNorm> fcal(new CalibTableNorm(ftab));
+    fcal->set_calibration_factor(cal->get_calibration_factor());
+    fcal->set_radionuclide(rn);
+    shared_ptr<BinNormalisation> finner(new ChainedBinNormalisation(fcomp, fatt.norm));
+    shared_ptr<BinNormalisation> fchain(new ChainedBinNormalisation(finner, fcal));
+    R.compare_fresh(ko, fchain, what);
+    // afterwards the members on their own, as the chain's set_up left them (no set_up of their own: measured through the halves)
+  };
+  step(A, 0, false, "1:random-factors");
+  step(A, 0, true, "2:components-and-calibration-changed-in-place");
+  step(A, 1, false, "3:components-set-to-1");
+  step(B, -1, false, "4:other-geometry-same-factors");
+  step(B, 0, true, "5:components-and-calibration-changed-in-place");
+  step(A, 0, false, "6:first-geometry-again");
+}
+
+static void
+hist_calib(vh::Rng& rng, bool thorough)
+{
+  Runner R(rng, thorough);
+  const int N = 4 * rng.range(2, 3);
+  const int Rr = rng.range(1, 2);
+  const int ntA = std::max(2, std::min(N / 2 - 1, rng.range(2, 5)));
+  const int ntB = ntA + 1 <= N / 2 - 1 ? ntA + 1 : ntA - 1;
+  shared_ptr<Scanner> sc = vh::make_scanner(N, Rr, 5);
+  shared_ptr<ProjDataInfo> A = vh::make_pdi(sc, 1, Rr - 1, N / 2, ntA, false, 0);
+  shared_ptr<ProjDataInfo> T = vh::make_pdi(sc, 1, Rr - 1, N / 2, ntA, false, 1);
+  shared_ptr<ProjDataInfo> B = vh::make_pdi(sc, 1, Rr - 1, N / 2, std::max(1, ntB), false, 0);
+  std::ostringstream d;
+  d << "N=" << N << " R=" << Rr << " span=1 views=" << N / 2 << " history=BinNormalisationWithCalibration(table)";
+  const std::string hid = "C" + std::to_string(g_hist_counter++);
+  R.set_geometry(sc, A, d.str() + " step=new");
+  shared_ptr<CalibTableNorm> obj(new CalibTableNorm(R.random_positive_pd(A, 0.2F, 5.F)));
+  op("hist " + hid + " newcalib", "ok");
+  auto usable = [&]() {
+    // do undo / apply get past the set-up check?
+    PD dd(R.g.exam, R.g.pdi);
+    dd.fill(1.F);
+    shared_ptr<DataSymmetriesForViewSegmentNumbers> triv(new TrivialDataSymmetriesForBins(R.g.pdi));
+    bool fine = true;
+    try
+      {
+        RelatedViewgrams<float> rv = dd.get_related_viewgrams(ViewSegmentNumbers(0, 0), triv, false, 0);
+        obj->undo(rv);
+        obj->apply(rv);
+      }
+    catch (...)
+      {
+        fine = false;
+      }
+    op("hist " + hid + " usable", fine ? "ok" : "err");
+    return fine;
+  };
+  auto set_cal = [&](float c) {
+    obj->set_calibration_factor(c);
+    op("hist " + hid + " setcal " + vh::hex(c), "ok");
+  };
+  Radionuclide rn;
+  auto set_br = [&](float br) {
+    rn = br > 0 ? Radionuclide("verif", 511.F, br, 6584.04F, ImagingModality(ImagingModality::PT))
+                : Radionuclide(); // unknown branching ratio (-1): counts as 1
+    obj->set_radionuclide(rn);
+    op("hist " + hid + " setbr " + vh::hex(br), "ok");
+  };
+  auto step = [&](const shared_ptr<ProjDataInfo>& pdi, bool new_table, const std::string& what) {
+    std::ostringstream descr;
+    descr << d.str() << " step=" << what << " tang=" << pdi->get_num_tangential_poss() << " tof=" << pdi->get_num_tof_poss();
+    R.set_geometry(sc, pdi, descr.str());
+    if (obj->table->get_proj_data_info_sptr()->get_num_tangential_poss() != pdi->get_num_tangential_poss()
+        || obj->table->get_proj_data_info_sptr()->get_num_tof_poss() != pdi->get_num_tof_poss())
+      obj->table = R.random_positive_pd(pdi, 0.2F, 5.F);
+    else if (new_table)
+      fill_gen(*obj->table, [&]() { return R.rnd(0.2F, 5.F); });
+    const int k = R.add_calib_hist(obj, hid);
+    R.run_case(k);
+    shared_ptr<PD> ftab(new PD(R.g.exam, pdi));
+    {
+      const std::vector<float> v = flatten_pd(*obj->table);
+      std::size_t i = 0;
+      fill_gen(*ftab, [&]() { return v[i++]; });
+    }
+    shared_ptr<CalibTableNorm> fresh(new CalibTableNorm(ftab));
+    fresh->set_calibration_factor(obj->get_calibration_factor());
+    fresh->set_radionuclide(rn);
+    R.compare_fresh(k, fresh, what);
+  };
+  ++g_checks;
+  if (usable())
+    oracle_fail("a calibrated normalisation that was never set up was accepted by undo/apply");
+  set_cal(R.rnd(0.3F, 40.F));
+  set_br(R.rnd(0.1F, 1.F));
+  step(A, false, "1:first-set_up");
+  set_br(R.rnd(0.1F, 1.F));
+  step(A, false, "2:radionuclide-changed");
+  set_cal(R.rnd(0.3F, 40.F));
+  ++g_checks;
+  if (usable())
+    oracle_fail("set_calibration_factor must invalidate the set-up state, but undo/apply were accepted without a new set_up");
+  step(A, false, "3:calibration-factor-changed");
+  step(A, true, "4:table-changed-in-place");
+  set_cal(R.rnd(0.3F, 40.F));
+  set_br(0.9686F);
+  step(T, true, "5:TOF-data-everything-changed");
+  set_br(-1.F);
+  step(B, false, "6:other-geometry-unknown-branching-ratio");
+  set_br(R.rnd(0.1F, 1.F));
+  set_cal(R.rnd(0.3F, 40.F));
+  step(A, true, "7:first-geometry-again-everything-changed");
+}
 
 // set_up of BinNormalisationFromProjData: decision for compatible / incompatible factor geometries
 static void
@@ -1562,6 +2203,290 @@ try_use(const BinNormalisation& n, const shared_ptr<ProjDataInfo>& data_pdi, con
   return accepted[0] == accepted[1] ? accepted[0] : -1;
 }
 
+// ================================================================== J: attenuation images with non-square in-plane voxels
+// A map that is `mu` (cm^-1) inside a box of whole voxels (or a cylinder), in every plane, and 0 outside.  The expectation
+// does not come from any projector: the two end points of the LOR of the bin (ProjDataInfo::get_LOR, property C01) are
+// clipped against the box / the circle in mm, ACF = exp(mu/10 * length inside * (3D length / 2D length)).
+// Voxel sizes (x,y) = (a,b) and (b,a), a/b = 1.5 or 1.1, z different from both; the image has one plane more on each side than
+// the scanner has (the tube of response of the end rings is then inside the image).
+// Routes: constructor from an image object, constructor from a file name, parsing; each with a (matrix) projector given and
+// with none (the class then makes a ForwardProjectorByBinUsingRayTracing).
+
+static std::string g_scratch; // prefix for files written by the harness
+
+static double
+chord_rect(double px, double py, double qx, double qy, double x0, double x1, double y0, double y1)
+{
+  const double dx = qx - px, dy = qy - py;
+  double tmin = 0, tmax = 1;
+  auto slab = [&](double p, double d, double lo, double hi) {
+    if (d == 0)
+      {
+        if (p < lo || p > hi)
+          {
+            tmin = 1;
+            tmax = 0;
+          }
+        return;
+      }
+    double a = (lo - p) / d, b = (hi - p) / d;
+    if (a > b)
+      std::swap(a, b);
+    tmin = std::max(tmin, a);
+    tmax = std::min(tmax, b);
+  };
+  slab(px, dx, x0, x1);
+  slab(py, dy, y0, y1);
+  return tmax > tmin ? (tmax - tmin) * std::sqrt(dx * dx + dy * dy) : 0.;
+}
+
+static void
+atten_analytic(vh::Rng& rng, bool thorough, int round)
+{
+  Runner R(rng, thorough);
+  const int N = 8 * rng.range(4, thorough ? 8 : 6); // 32..64
+  const int Rr = rng.range(2, 3);
+  const int nt = std::min(N / 2 - 1, rng.range(9, 16));
+  shared_ptr<Scanner> sc = vh::make_scanner(N, Rr, -1);
+  shared_ptr<ProjDataInfo> pdi = vh::make_pdi(sc, 1, Rr - 1, N / 2, nt, false, 0);
+  const float ratio = (round % 2 == 0) ? 1.5F : 1.1F;
+  const float zoom = rng.coin() ? 0.8F : (rng.coin() ? 1.25F : 0.64F);
+  const int nxy = 2 * rng.range(12, 20) + 1;
+  for (int orient = 0; orient < 2; ++orient)
+    {
+      const float sx = orient == 0 ? ratio : 1.F, sy = orient == 0 ? 1.F : ratio;
+      shared_ptr<VoxelsOnCartesianGrid<float>> mu = vh::make_image(*pdi, zoom, nxy, 2 * Rr + 1);
+      CartesianCoordinate3D<float> vs = mu->get_voxel_size();
+      vs.x() *= sx;
+      vs.y() *= sy;
+      mu->set_voxel_size(vs);
+      std::ostringstream d;
+      d << "nonTOF N=" << N << " R=" << Rr << " span=1 views=" << N / 2 << " tang=" << nt << " analytic-attenuation voxel(x,y,z)=(" << vs.x() << ","
+        << vs.y() << "," << vs.z() << ") image=" << nxy << "x" << nxy << "x" << 2 * Rr + 1;
+      R.set_geometry(sc, pdi, d.str());
+      const Geom& g = R.g;
+      const int half = (nxy - 1) / 2;
+      // field of view of the projectors: a circle of radius min(half*vx, half*vy) (ProjMatrixByBinUsingRayTracing.cxx:756)
+      const double fov = std::min(half * vs.x(), half * vs.y()) - std::max(vs.x(), vs.y());
+      // the LORs
+      std::vector<std::array<float, 6>> lors(g.nbins());
+      {
+        std::size_t i = 0;
+        for (const Row& r : g.rows)
+          for (int t = g.tmin; t <= g.tmax; ++t, ++i)
+            {
+              Bin b(r.seg, r.view, r.ax, t, r.tof);
+              LORInAxialAndNoArcCorrSinogramCoordinates<float> lor;
+              pdi->get_LOR(lor, b);
+              LORAs2Points<float> pts;
+              lor.get_intersections_with_cylinder(pts, lor.radius());
+              lors[i] = { pts.p1().x(), pts.p1().y(), pts.p1().z(), pts.p2().x(), pts.p2().y(), pts.p2().z() };
+            }
+      }
+      for (int shape = 0; shape < 2; ++shape)
+        {
+          const float m = R.rnd(0.05F, 0.2F);
+          // box: voxel index ranges (off centre), all corners inside the field of view
+          int x0, x1, y0, y1;
+          double cx = 0, cy = 0, rad = 0;
+          if (shape == 0)
+            {
+              do
+                {
+                  x0 = rng.range(-half + 1, half - 2);
+                  x1 = rng.range(x0 + 1, half - 1);
+                  y0 = rng.range(-half + 1, half - 2);
+                  y1 = rng.range(y0 + 1, half - 1);
+              } while (std::max(std::hypot((x0 - .5) * vs.x(), (y0 - .5) * vs.y()), std::hypot((x1 + .5) * vs.x(), (y1 + .5) * vs.y())) >= fov
+                       || std::max(std::hypot((x0 - .5) * vs.x(), (y1 + .5) * vs.y()), std::hypot((x1 + .5) * vs.x(), (y0 - .5) * vs.y())) >= fov
+                       || (x1 - x0) * (y1 - y0) < 12);
+            }
+          else
+            {
+              rad = fov * R.rnd(0.55F, 0.75F);
+              const double room = fov - rad;
+              cx = room * R.rnd(-0.6F, 0.6F);
+              cy = room * R.rnd(-0.6F, 0.6F);
+              x0 = x1 = y0 = y1 = 0;
+            }
+          mu->fill(0.F);
+          for (int z = mu->get_min_index(); z <= mu->get_max_index(); ++z)
+            for (int y = (*mu)[z].get_min_index(); y <= (*mu)[z].get_max_index(); ++y)
+              for (int x = (*mu)[z][y].get_min_index(); x <= (*mu)[z][y].get_max_index(); ++x)
+                if (shape == 0 ? (x >= x0 && x <= x1 && y >= y0 && y <= y1) : (std::hypot(x * vs.x() - cx, y * vs.y() - cy) <= rad))
+                  (*mu)[z][y][x] = m;
+          const double bx0 = (x0 - .5) * vs.x(), bx1 = (x1 + .5) * vs.x(), by0 = (y0 - .5) * vs.y(), by1 = (y1 + .5) * vs.y();
+          // expected log(ACF) per bin; for the cylinder also whether the LOR is well inside (distance from the axis <= 0.6 radius)
+          std::vector<double> expected(g.nbins());
+          std::vector<char> use(g.nbins(), 1);
+          for (std::size_t i = 0; i < g.nbins(); ++i)
+            {
+              const auto& l = lors[i];
+              const double l2 = std::hypot(l[3] - l[0], l[4] - l[1]), l3 = std::sqrt(l2 * l2 + (l[5] - l[2]) * (l[5] - l[2]));
+              double c2;
+              if (shape == 0)
+                c2 = chord_rect(l[0], l[1], l[3], l[4], bx0, bx1, by0, by1);
+              else
+                {
+                  const double ux = (l[3] - l[0]) / l2, uy = (l[4] - l[1]) / l2;
+                  const double dist = std::fabs((cx - l[0]) * uy - (cy - l[1]) * ux);
+                  c2 = dist >= rad ? 0. : 2 * std::sqrt(rad * rad - dist * dist);
+                  use[i] = dist <= 0.6 * rad;
+                }
+              expected[i] = m / 10. * c2 * l3 / l2;
+            }
+          const std::string file = g_scratch + "_atten" + std::to_string(round) + "_" + std::to_string(orient) + "_" + std::to_string(shape);
+          bool written = false;
+          // routes: 0/1 image object with/without projector; 2/3 file name with/without; 4/5 parsed with/without
+          for (int route = 0; route < (shape == 0 ? 6 : 2); ++route)
+            {
+              const bool with_fwd = route % 2 == 0;
+              const int f = rng.range(0, 7);
+              shared_ptr<ForwardProjectorByBin> fwd;
+              if (with_fwd)
+                fwd.reset(new ForwardProjectorByBinUsingProjMatrixByBin(Runner::make_matrix(f, rng.coin(), rng.coin())));
+              shared_ptr<BinNormalisation> n;
+              std::string rname;
+              ++g_checks;
+              try
+                {
+                  if (route >= 2 && !written)
+                    {
+                      write_to_file(file, *mu);
+                      written = true;
+                    }
+                  if (route < 2)
+                    {
+                      shared_ptr<const DiscretisedDensity<3, float>> mu_c(mu);
+                      n.reset(with_fwd ? new BinNormalisationFromAttenuationImage(mu_c, fwd) : new BinNormalisationFromAttenuationImage(mu_c));
+                      rname = "constructor(image object";
+                    }
+                  else if (route < 4)
+                    {
+                      n.reset(with_fwd ? new BinNormalisationFromAttenuationImage(file + ".hv", fwd)
+                                       : new BinNormalisationFromAttenuationImage(file + ".hv"));
+                      rname = "constructor(file name";
+                    }
+                  else
+                    {
+                      std::ostringstream par;
+                      par << "Bin Normalisation From Attenuation Image:=\n"
+                          << "attenuation_image_filename := " << file << ".hv\n";
+                      if (with_fwd)
+                        par << "forward projector type := Matrix\n"
+                            << " Forward Projector Using Matrix Parameters :=\n"
+                            << "  Matrix type := Ray Tracing\n"
+                            << "   Ray Tracing Matrix Parameters :=\n"
+                            << "    do_symmetry_90degrees_min_phi := " << ((f & 1) ? 1 : 0) << "\n"
+                            << "    do_symmetry_180degrees_min_phi := " << ((f & 2) ? 1 : 0) << "\n"
+                            << "    do_symmetry_swap_segment := " << ((f & 4) ? 1 : 0) << "\n"
+                            << "   End Ray Tracing Matrix Parameters :=\n"
+                            << " End Forward Projector Using Matrix Parameters :=\n";
+                      par << "End Bin Normalisation From Attenuation Image :=\n";
+                      shared_ptr<BinNormalisationFromAttenuationImage> pn(new BinNormalisationFromAttenuationImage);
+                      std::istringstream is(par.str());
+                      if (!pn->parse(is))
+                        throw std::runtime_error("parse");
+                      n = pn;
+                      rname = "parsed(";
+                    }
+                  rname += with_fwd ? ", matrix projector)" : ", no projector given)";
+                  if (n->set_up(g.exam, g.pdi) != Succeeded::yes)
+                    throw std::runtime_error("set_up");
+                }
+              catch (...)
+                {
+                  oracle_fail("attenuation normalisation could not be constructed / set up: " + rname + (shape ? " cylinder" : " box"));
+                  continue;
+                }
+              // symmetries: those of the projector in use (for the class's own default projector: the PET symmetries of the image)
+              shared_ptr<DataSymmetriesForViewSegmentNumbers> sym;
+              if (route == 0)
+                sym.reset(fwd->get_symmetries_used()->clone());
+              else if (!with_fwd)
+                sym.reset(new DataSymmetriesForBins_PET_CartesianGrid(g.pdi, mu));
+              else
+                {
+                  // a projector given through the file-name constructor / made by the parser: same settings as `fwd` (route 2) or the
+                  // parsed flags; build the same symmetries from a matrix object of our own
+                  shared_ptr<ProjMatrixByBinUsingRayTracing> pm = Runner::make_matrix(f, true, true);
+                  if (route == 2)
+                    sym.reset(fwd->get_symmetries_used()->clone());
+                  else
+                    {
+                      pm->set_up(g.pdi, mu);
+                      sym.reset(pm->get_symmetries_ptr()->clone());
+                    }
+                }
+              PD acf(g.exam, g.pdi), back(g.exam, g.pdi);
+              acf.fill(1.F);
+              Route whole{ "whole:projector", true, sym };
+              ++g_checks;
+              if (!run_route(*n, whole, g, acf, true))
+                {
+                  oracle_fail("apply threw: attenuation " + rname);
+                  continue;
+                }
+              const std::vector<float> A = flatten(g, acf);
+              fill_from(g, back, A);
+              const bool undone = run_route(*n, whole, g, back, false);
+              const std::vector<float> U = flatten(g, back);
+              int bad = -1, bad_undo = -1;
+              double worst = 0;
+              // box: float arithmetic of the ray tracing only (observed <= 2e-5); cylinder of 8-14 voxels radius: its discretisation
+              const double tol_rel = shape == 0 ? 2e-4 : 0.12, tol_abs = shape == 0 ? 2e-5 : 2e-3;
+              for (std::size_t i = 0; i < g.nbins(); ++i)
+                {
+                  if (!undone || !close_rel(U[i], 1., 1e-5))
+                    bad_undo = static_cast<int>(i);
+                  if (!use[i])
+                    continue;
+                  const double got = std::log(static_cast<double>(A[i]));
+                  const double dev = std::fabs(got - expected[i]);
+                  if (!(dev <= tol_abs + tol_rel * expected[i]) && (bad < 0 || dev > worst))
+                    {
+                      bad = static_cast<int>(i);
+                      worst = dev;
+                    }
+                }
+              ++g_checks;
+              if (bad >= 0)
+                {
+                  std::ostringstream t;
+                  t << "attenuation correction factor is not exp(line integral of mu in cm^-1 along the LOR): uniform " << (shape ? "cylinder" : "box")
+                    << " mu=" << m << " cm^-1, " << rname << ", " << bin_name(g, bad) << ": log(ACF)=" << std::log(static_cast<double>(A[bad]))
+                    << " but mu x chord length = " << expected[bad];
+                  oracle_fail(t.str());
+                }
+              ++g_checks;
+              if (bad_undo >= 0)
+                oracle_fail("undo(apply(1)) != 1 for the attenuation normalisation: " + rname + " " + bin_name(g, bad_undo));
+              // correspondence with the model (acfBox, no rows): a sample of the bins of the box cases
+              if (shape == 0)
+                {
+                  const int stride = thorough ? 3 : 7;
+                  const std::size_t start = static_cast<std::size_t>(rng.range(0, stride - 1));
+                  for (std::size_t i = start; i < g.nbins(); i += stride)
+                    {
+                      const auto& l = lors[i];
+                      std::ostringstream o;
+                      o << "acf " << vh::hex(m) << " " << vh::hex(bx0) << " " << vh::hex(bx1) << " " << vh::hex(by0) << " " << vh::hex(by1);
+                      for (float v : l)
+                        o << " " << vh::hex(v);
+                      op(o.str(), fmt(A[i]));
+                    }
+                }
+            }
+          if (written)
+            {
+              std::remove((file + ".hv").c_str());
+              std::remove((file + ".v").c_str());
+              std::remove((file + ".ahv").c_str());
+            }
+        }
+    }
+}
+
 int
 main(int argc, char** argv)
 {
@@ -1573,6 +2498,14 @@ main(int argc, char** argv)
   g_ops = std::fopen(argv[3], "w");
   g_out = std::fopen(argv[4], "w");
   g_orc = std::fopen((std::string(argv[4]) + ".oracle").c_str(), "w");
+  g_scratch = argv[3];
+  {
+    // (the Interfile writer replaces whatever follows the last '.' of the file name)
+    const std::size_t slash = g_scratch.find_last_of('/');
+    for (std::size_t i = slash == std::string::npos ? 0 : slash + 1; i < g_scratch.size(); ++i)
+      if (g_scratch[i] == '.')
+        g_scratch[i] = '_';
+  }
 
   const int rounds = thorough ? 12 : 2;
   for (int round = 0; round < rounds; ++round)
@@ -1622,6 +2555,14 @@ main(int argc, char** argv)
           // the attenuation class with its default projector (no projector given)
           const int atd = R.add_atten(rng.range(0, 7), rng.coin() ? 0.8F : 1.25F, rng.range(6, 9), true);
           R.add_chain(fpd, atd);
+          // non-square in-plane voxels, (a,b) and (b,a), ratio 1.5 / 1.1, z size different from both; given projector / default
+          {
+            const float ratio = (round + even) % 2 == 0 ? 1.5F : 1.1F;
+            const int ns1 = R.add_atten(rng.range(0, 7), rng.coin() ? 0.8F : 1.25F, rng.range(5, 8), false, ratio, 1.F);
+            R.add_atten(rng.range(0, 7), rng.coin() ? 0.8F : 1.25F, rng.range(5, 8), false, 1.F, ratio);
+            const int ns3 = R.add_atten(rng.range(0, 7), rng.coin() ? 0.8F : 1.25F, rng.range(6, 9), true, even ? ratio : 1.F, even ? 1.F : ratio);
+            R.add_chain(even ? ns3 : ns1, tab);
+          }
           // components against the expectation built by hand
           const int h7 = R.add_components_hand(7, "");
           R.add_components_hand(rng.range(1, 6), "");
@@ -2002,6 +2943,14 @@ main(int argc, char** argv)
         atten_setup_case(R);
         comp_setup_case(R);
       }
+      // ------------------------------------------------------------------ I: histories on one object
+      hist_components(rng, thorough);
+      hist_calib(rng, thorough);
+      hist_from_proj_data(rng, thorough);
+      hist_atten(rng, thorough);
+      hist_chain(rng, thorough);
+      // ------------------------------------------------------------------ J: non-square voxels, analytic chord lengths
+      atten_analytic(rng, thorough, round);
     }
 
   std::fprintf(g_orc, "ORACLE-DONE checks=%ld fails=%ld\n", g_checks, g_fails);
